@@ -66,6 +66,7 @@ pub ghost enum Den {
     Int { bits: nat, val: nat },          // 0 <= val < 2^bits
     Float { bits: nat, f: FloatVal },
     Addr { base: Base, off: int },        // pointer-typed value: an address inside an object
+    Blob,                                 // some bytes (bulk copy / memset): no single value
 }
 pub ghost enum Base { Slot(int), Val(int), Global(int), Unknown }
 
@@ -112,7 +113,7 @@ pub open spec fn icmp_spec(cc: IntCC, bits: nat, a: nat, b: nat) -> bool {
 
 pub ghost enum Ev {
     Pure,                                              // no memory effect
-    Write { base: Base, lo: int, hi: int },             // bytes [lo, hi) of the object `base` written
+    Write { base: Base, lo: int, hi: int, val: Den },   // bytes [lo, hi) of the object `base` written with the value `val`
     Read { base: Base, lo: int, hi: int },
     Call { callee: int },
     Trap,
@@ -130,7 +131,7 @@ pub open spec fn ptr_off(v: Value) -> int {
 }
 /// width in bytes of a value as a store writes it
 pub open spec fn den_bytes(d: Den) -> int {
-    match d { Den::Int { bits, val } => bits as int / 8, Den::Float { bits, f } => bits as int / 8, Den::Addr { .. } => ptr_bytes_spec() }
+    match d { Den::Int { bits, val } => bits as int / 8, Den::Float { bits, f } => bits as int / 8, Den::Addr { .. } => ptr_bytes_spec(), Den::Blob => 0 }
 }
 pub uninterp spec fn ptr_bytes_spec() -> int;   // 4 or 8 (see target_ok)
 pub open spec fn target_ok() -> bool { ptr_bytes_spec() == 4 || ptr_bytes_spec() == 8 }
@@ -186,7 +187,7 @@ impl FunctionBuilder {
             final(self).slots == old(self).slots,
             final(self).log@ == old(self).log@
                 .push(Ev::Read { base: ptr_base(src), lo: ptr_off(src), hi: ptr_off(src) + size })
-                .push(Ev::Write { base: ptr_base(dest), lo: ptr_off(dest), hi: ptr_off(dest) + size }),
+                .push(Ev::Write { base: ptr_base(dest), lo: ptr_off(dest), hi: ptr_off(dest) + size, val: Den::Blob }),
     { unimplemented!() }
     // "Writes `size` bytes of i8 value `ch` to memory starting at `buffer`"
     #[verifier::external_body]
@@ -196,7 +197,7 @@ impl FunctionBuilder {
         ensures
             final(self).slots == old(self).slots,
             final(self).log@ == old(self).log@
-                .push(Ev::Write { base: ptr_base(buffer), lo: ptr_off(buffer), hi: ptr_off(buffer) + size }),
+                .push(Ev::Write { base: ptr_base(buffer), lo: ptr_off(buffer), hi: ptr_off(buffer) + size, val: Den::Blob }),
     { unimplemented!() }
 }
 
@@ -224,7 +225,7 @@ impl Ins {
     // "Store x to the stack slot SS at offset": writes the bytes of x
     #[verifier::external_body]
     pub fn stack_store(self, x: Value, slot: StackSlot, off: i32)
-        ensures self.ev@ == (Ev::Write { base: Base::Slot(slot.id as int), lo: off as int, hi: off + den_bytes(x.den@) })
+        ensures self.ev@ == (Ev::Write { base: Base::Slot(slot.id as int), lo: off as int, hi: off + den_bytes(x.den@), val: x.den@ })
     { unimplemented!() }
     #[verifier::external_body]
     pub fn stack_load(self, ty: types::Type, slot: StackSlot, off: i32) -> (r: Value)
@@ -240,7 +241,7 @@ impl Ins {
     // "Store x to memory at p + Offset"
     #[verifier::external_body]
     pub fn store(self, flags: MemFlags, x: Value, p: Value, off: i32)
-        ensures self.ev@ == (Ev::Write { base: ptr_base(p), lo: ptr_off(p) + off, hi: ptr_off(p) + off + den_bytes(x.den@) })
+        ensures self.ev@ == (Ev::Write { base: ptr_base(p), lo: ptr_off(p) + off, hi: ptr_off(p) + off + den_bytes(x.den@), val: x.den@ })
     { unimplemented!() }
     // "Load from memory at p + Offset" -- the loaded value has the requested type
     #[verifier::external_body]
